@@ -852,3 +852,70 @@ Proof.
     rewrite flip_adjacent, D2 in D1; discriminate ].
 Qed.
 Local Transparent Z.mul Z.add.
+
+(* ------------------------------------------------------------------ index ranges (the guard under which numpy does not raise) *)
+Lemma idx_in_range_iff {P} (A : list idx3 * list P) :
+  idx_in_range A = true <->
+  forall r, In r (fst A) -> (i0 r < length (snd A) /\ i1 r < length (snd A) /\ i2 r < length (snd A))%nat.
+Proof.
+  unfold idx_in_range. rewrite forallb_forall. split; intros H r Hr; specialize (H r Hr).
+  - rewrite !andb_true_iff, !Nat.ltb_lt in H. tauto.
+  - rewrite !andb_true_iff, !Nat.ltb_lt. tauto.
+Qed.
+
+Lemma reindex_in_range (ts : list rtri) : idx_in_range (reindex ts) = true.
+Proof. apply idx_in_range_iff. apply reindex_idx_ok. Qed.
+
+Lemma sort3_range (r : idx3) n : (i0 r < n /\ i1 r < n /\ i2 r < n)%nat ->
+  (i0 (sort3 r) < n /\ i1 (sort3 r) < n /\ i2 (sort3 r) < n)%nat.
+Proof. destruct r as [[a b] c]. unfold sort3, i0, i1, i2. cbn [fst snd]. lia. Qed.
+
+Lemma a_outputs_in_range (A : @atri ROps) :
+  idx_in_range (a_up_sample A) = true /\ idx_in_range (a_neighborhood A) = true
+  /\ forall sel, idx_in_range (a_for_indexes A sel) = true.
+Proof.
+  split; [apply reindex_in_range|]. split; [|intros sel; apply reindex_in_range].
+  unfold a_neighborhood. apply idx_in_range_iff. cbn [fst snd]. intros r Hr.
+  apply (proj1 (in_unique idx3_ltb idx3_eqb idx3_eqb_eq _ _)) in Hr. apply in_map_iff in Hr.
+  destruct Hr as [r0 [E Hr0]]. subst r. apply sort3_range. apply reindex_idx_ok. exact Hr0.
+Qed.
+
+Lemma c_repr_in_range (h : T ROps) (S : cs ROps) : idx_in_range (c_repr h S) = true.
+Proof. apply reindex_in_range. Qed.
+
+Lemma nth_In_default {A} (l : list A) i d : (i < length l)%nat -> In (nth i l d) l.
+Proof. apply nth_In. Qed.
+
+(* with indices in range every corner of every triangle is one of the vertices: the default is never used *)
+Lemma a_triangles_corners {O : NumOps} (A : @atri O) t :
+  idx_in_range A = true -> In t (a_triangles A) ->
+  In (v0 t) (snd A) /\ In (v1 t) (snd A) /\ In (v2 t) (snd A).
+Proof.
+  intros H Ht. unfold a_triangles in Ht. apply in_map_iff in Ht. destruct Ht as [r [E Hr]]. subst t.
+  destruct (proj1 (idx_in_range_iff A) H r Hr) as (H0 & H1 & H2).
+  unfold row_tri, getv, v0, v1, v2. cbn [fst snd]. repeat split; apply nth_In; assumption.
+Qed.
+
+Lemma a_triangles_checked_ok {O : NumOps} (A : @atri O) :
+  idx_in_range A = true -> a_triangles_checked A = Ok (a_triangles A).
+Proof. intros H. unfold a_triangles_checked. rewrite H. reflexivity. Qed.
+Lemma a_triangles_checked_raise {O : NumOps} (A : @atri O) :
+  idx_in_range A = false -> a_triangles_checked A = Raise IndexError.
+Proof. intros H. unfold a_triangles_checked. rewrite H. reflexivity. Qed.
+
+(* guarded forms of the ArrayTriangles statements *)
+Lemma a_up_sample_triangles_g (A : @atri ROps) :
+  idx_in_range A = true -> a_triangles (a_up_sample A) = up_sample_triangles (a_triangles A).
+Proof. intros _. apply a_up_sample_triangles. Qed.
+Lemma a_neighborhood_exact_g (A : @atri ROps) :
+  idx_in_range A = true ->
+  same_triangle_set (a_triangles (a_neighborhood A)) (neighborhood_triangles (a_triangles A)).
+Proof. intros _. apply a_neighborhood_exact. Qed.
+Lemma a_for_indexes_triangles_g (A : @atri ROps) (sel : list nat) :
+  idx_in_range A = true -> Forall (fun i => (i < length (fst A))%nat) sel ->
+  map Some (a_triangles (a_for_indexes A sel)) = map (nth_error (a_triangles A)) sel.
+Proof. intros _. apply a_for_indexes_triangles. Qed.
+Lemma a_containing_spec_g (A : @atri ROps) (s : shape ROps) i :
+  idx_in_range A = true ->
+  (In i (a_containing A s) <-> exists t, nth_error (a_triangles A) i = Some t /\ shape_mask s t = true).
+Proof. intros _. apply a_containing_spec. Qed.
